@@ -4,6 +4,7 @@ import itertools
 from hypothesis import strategies as st
 
 from vgv import envs, gen, model as M, objs
+from vgv import prelude
 from vgv.framework import Check, guarded
 from vgv.objs import ACTIONS, HEADINGS
 
@@ -60,6 +61,7 @@ def strat_gen(draw, tier):
 
 
 def oracle_gen(case, ctx):
+    prelude.door_first(ctx)
     sd, a, chain = case['state'], case['action'], case['chain']
     y, x, hd, held = sd['agent']
     # single functions
@@ -186,6 +188,7 @@ def _valid_pose(ctx, sd, real_state, what):
 
 
 def oracle_hist(case, ctx):
+    prelude.door_first(ctx)
     if case['kind'] == 'shipped' and 'configs' in case:
         for k, c in enumerate(case['configs']):
             _hist(dict(case, config=c, seed=case['seed'] + k), ctx)
@@ -266,12 +269,12 @@ def _hist(case, ctx):
 
 
 CHECKS = [
-    Check('pose_generated', oracle_gen, strategy=strat_gen, examples={'quick': 1200, 'thorough': 5000},
+    Check('pose_generated', oracle_gen, strategy=strat_gen, examples={'quick': 400, 'thorough': 5000}, shards={'quick': 3, 'thorough': 16},
           rule='generated state (one in sixteen tiled to a long world with a dimension of 40..300) x action against move_agent, turn_agent, both chains and a random composition; turn laws (L then R, four equal turns)',
           required=['move_outside', 'move_blocked', 'move_free', 'turn', 'long_world']),
     Check('target_table', oracle_table, enumerate=enum_table, shards={'quick': 4, 'thorough': 8}, exhaustive=True,
           rule='grids 1x1,1x3,3x1,2x2,3x3 x every agent cell x 4 headings x 8 actions x 13 target kinds (every type and door status), target outside the grid on every side'),
-    Check('histories', oracle_hist, strategy=strat_hist, examples={'quick': 80, 'thorough': 300},
+    Check('histories', oracle_hist, strategy=strat_hist, examples={'quick': 27, 'thorough': 300}, shards={'quick': 3, 'thorough': 16},
           rule='valid generated initial states x random composition, and resets of the shipped configurations, x <= 40 (300 thorough) actions: agent inside the grid and on a non-blocking cell after every step',
           required=['generated', 'shipped', 'shipped_via_gym']),
 ]
